@@ -611,7 +611,7 @@ func resyncUnderChurn(r *monitor.Run, idx int) {
 	}
 	defer ca.Close()
 	_, _ = ca.Connect(&mqttx.Packet{ClientID: "churn-a", CleanStart: true}, step)
-	const n = 400
+	const n = 800
 	for i := 0; i < n; i += 50 {
 		var subs []mqttx.Sub
 		for k := i; k < i+50; k++ {
@@ -634,7 +634,7 @@ func resyncUnderChurn(r *monitor.Run, idx int) {
 			_, _ = ca.Unsubscribe([]string{fmt.Sprintf("ch/%d", i)}, step)
 		}
 	}()
-	time.Sleep(time.Duration(idx%5) * time.Millisecond)
+	time.Sleep(time.Duration(idx*3%17) * time.Millisecond)
 	if !b.F.VerifBouncePeer(a.Name) {
 		r.Inconclusive("churn: peer unknown")
 	}
@@ -757,7 +757,7 @@ func Run(r *monitor.Run) {
 	for i, n := range []int{150, 60, 101, 260}[:r.Pick(2, 4)] {
 		lostAcksThenResume(r, i, n)
 	}
-	for i := 0; i < r.Pick(2, 10); i++ {
+	for i := 0; i < r.Pick(6, 20); i++ {
 		resyncUnderChurn(r, i)
 	}
 	for i := 0; i < r.Pick(2, 8); i++ {
